@@ -346,7 +346,12 @@ impl<'a> ReadAdapter<'a> {
             0 => {
                 let buf = self.non_empty_reader_buffer_mut()?;
                 if buf.len() < N {
-                    return Err(DeserializationError::UnexpectedEOF);
+                    // The reader returned fewer than N bytes, but this does not mean we have
+                    // reached end-of-file, so fall back to filling `self.buf`
+                    self.buffer_at_least(N)?;
+                    output.copy_from_slice(&self.buffer()[..N]);
+                    self.pos += N;
+                    return Ok(output);
                 }
                 // SAFETY: This copy is guaranteed to be safe, as we have validated above
                 // that `buf` has at least N bytes, and `output` is defined to be exactly
